@@ -37,7 +37,7 @@ pub fn summary() -> String {
             Some(can::state::ResponseToProcess::Partial(p, k)) => format!("partial:{}/{}:{}", k, p.remaining_follow_ups, p.partial_block.len()),
         };
         format!(
-            "stable={} ingesting={} fetching={} resp={} rej={} deser={} insert={} blocks={} maxnext={}",
+            "stable={} ingesting={} fetching={} resp={} rej={} deser={} insert={} blocks={} maxnext={} nnext={}",
             s.stable_height(),
             s.utxos.ingesting_block.is_some() as u8,
             sy.is_fetching_blocks as u8,
@@ -47,6 +47,8 @@ pub fn summary() -> String {
             sy.num_insert_block_errors,
             can::state::unstable_blocks_total(s),
             s.unstable_blocks.verif_next_headers_by_height().iter().map(|(h, _)| *h).max().map(|h| h.to_string()).unwrap_or("x".into()),
+            // how many announced headers are on record (C14: a header leaves when its block arrives)
+            s.unstable_blocks.verif_next_headers_by_hash().len(),
         )
     })
 }
